@@ -11,6 +11,9 @@ use std::panic::{catch_unwind, AssertUnwindSafe};
 
 const ALPHA: &[char] = &['$', '{', '}', '\\', 'g', '<', '>', '0', '1', '9', 'x', '_', 'é', ' '];
 
+/// `@` = the scalar value under test
+const SCALAR_FORMS: &[&str] = &["$1@", "$x@x", "${x@}", "\\g<x@>"];
+
 struct CapSet {
     name: &'static str,
     pattern: &'static str,
@@ -112,6 +115,11 @@ pub fn run_c12(cx: &Ctx) -> i32 {
     let n_long = long_templates.len();
     lens.push((usize::MAX, total, n_long));
     total += n_long;
+    // every Unicode scalar value directly after / inside a reference (which characters continue an
+    // identifier is a classification over all of Unicode, not over the template alphabet)
+    let n_scalar = 0x110000 * SCALAR_FORMS.len();
+    lens.push((usize::MAX - 1, total, n_scalar));
+    total += n_scalar;
     let tallies = par::run_workers(4096, |_w, claimer| {
         engine::quiet_panics();
         let mut t = Tally::new();
@@ -123,7 +131,16 @@ pub fn run_c12(cx: &Ctx) -> i32 {
                 if !claimer.is_mine(idx) {
                     continue;
                 }
-                let tpl = if l == usize::MAX { long_templates[i].clone() } else { template(i, l) };
+                let tpl = if l == usize::MAX {
+                    long_templates[i].clone()
+                } else if l == usize::MAX - 1 {
+                    match char::from_u32((i / SCALAR_FORMS.len()) as u32) {
+                        Some(c) => SCALAR_FORMS[i % SCALAR_FORMS.len()].replace('@', &c.to_string()),
+                        None => continue, // surrogate code points are not scalar values
+                    }
+                } else {
+                    template(i, l)
+                };
                 t.programs += 1;
                 let mut viol = |t: &mut Tally, what: String| {
                     t.violation(
@@ -229,7 +246,7 @@ pub fn run_c12(cx: &Ctx) -> i32 {
         t,
         Finish {
             rule: format!(
-                "all {} templates: every template of length <= {} over {:?} plus {} long templates (an ASCII stretch of every length 0..130, a multi-byte character, a reference; references by numbers at the edges of the 8/16/32/64-bit widths in every reference syntax) x 5 capture sets (named, numbered with 11 groups, unmatched groups, digit-led names, multi-byte) x both expanders (default and Python-style) x 5 entry points (expansion, append_expansion, write_expansion - into a Vec, into a writer that takes two bytes per call, and into a full destination, which must be an error -, write_expansion_vec, Captures::expand) which must all agree; oracle: reference expander written from the documentation (frmc-core/src/expandref.rs); expansion(escape(s)) == s for every string of the same space; check accepts only templates all of whose references name an existing group; non-trivial = expansions that differ from the template",
+                "all {} templates: every template of length <= {} over {:?} plus every Unicode scalar value (all 1 112 064) in the forms $1@ $x@x ${{x@}} \\g<x@> (which characters continue an identifier) plus {} long templates (an ASCII stretch of every length 0..130, a multi-byte character, a reference; references by numbers at the edges of the 8/16/32/64-bit widths in every reference syntax) x 5 capture sets (named, numbered with 11 groups, unmatched groups, digit-led names, multi-byte) x both expanders (default and Python-style) x 5 entry points (expansion, append_expansion, write_expansion - into a Vec, into a writer that takes two bytes per call, and into a full destination, which must be an error -, write_expansion_vec, Captures::expand) which must all agree; oracle: reference expander written from the documentation (frmc-core/src/expandref.rs); expansion(escape(s)) == s for every string of the same space; check accepts only templates all of whose references name an existing group; non-trivial = expansions that differ from the template",
                 total, max_len, ALPHA, n_long
             ),
             exhaustive: true,
